@@ -161,7 +161,7 @@ Finish(cmd, z, E2, S2, cn, mx2, taint, pruneFor, abstree) ==
         ups == [s \in Sessions |-> Upds(out[s])]
         m2  == [s \in Sessions |-> IF s \notin cn THEN Empty
                                     ELSE LET m == ApplyAll(s, mirror[s], ups[s]) IN IF s = pruneFor THEN Prune(m, S2[s]) ELSE m]
-        un2 == [s \in Sessions |-> IF s \notin cn THEN {} ELSE ((unclaimed[s] \cup taint[s]) \ Mentioned(ups[s])) \ (IF s = pruneFor THEN {p \in unclaimed[s] : ~\E sp \in DOMAIN S2[s] : PathMatches(S2[s][sp].cl, p)} ELSE {})]
+        un2 == [s \in Sessions |-> IF s \notin cn \/ s \notin Subscribers THEN {} ELSE ((unclaimed[s] \cup taint[s]) \ Mentioned(ups[s])) \ (IF s = pruneFor THEN {p \in unclaimed[s] : ~\E sp \in DOMAIN S2[s] : PathMatches(S2[s][sp].cl, p)} ELSE {})]
         nb  == (IF \E s \in Sessions : \E k \in DOMAIN out[s] : SetThenRemove(out[s][k]) THEN {"SetThenRemove"} ELSE {})
                \cup (IF z.tree # abstree THEN {"TreeStep"} ELSE {})
     IN /\ tree' = z.tree /\ refs' = z.refs /\ conn' = cn /\ entries' = E2 /\ subs' = S2 /\ maxItems' = mx2
